@@ -35,7 +35,7 @@ def type_express(t):
             b = "[%d:?]" % t["lo"]
         else:
             b = "[%d:%d]" % (t["lo"], t["hi"])
-        return "%s %s OF %s%s" % (t["agg"], b, "UNIQUE " if t.get("unique") else "", type_express(t["elem"]))
+        return "%s %s OF %s%s%s" % (t["agg"], b, "OPTIONAL " if t.get("opt_elem") else "", "UNIQUE " if t.get("unique") else "", type_express(t["elem"]))
     raise ValueError(k)
 
 
@@ -362,6 +362,8 @@ def gen_schema(r, name, feat):
         t = {"k": "agg", "agg": agg, "lo": lo, "hi": hi, "elem": rand_elem_type(depth)}
         if feat.get("unique") and r.random() < 0.2 and t["elem"]["k"] in ("int", "string"):
             t["unique"] = True
+        if agg == "ARRAY" and feat.get("optional_elems") and r.random() < 0.5:
+            t["opt_elem"] = True        # ARRAY [..] OF OPTIONAL t: single positions may be unset ($ inside the aggregate)
         return t
 
     def rand_attr_type():
@@ -651,6 +653,9 @@ class PopGen:
         tries = 0
         while len(vals) < n and tries < 50 + 2 * n:
             tries += 1
+            if t.get("opt_elem") and r.random() < 0.35:
+                vals.append(["null"])
+                continue
             v = self.value(t["elem"], depth + 1)
             if v is None:
                 return None
